@@ -24,15 +24,17 @@ SRV_BODY = bytes(range(65, 91)) * 6  # 156 bytes: three fragments at the servers
 
 
 class Reconnect(Scenario):
-    def __init__(self, cause, trigger, rounds=1, alts=(), modes=('Q',), lease=False, flavour='tcp', gate=False, channel=False, slow_close=False, srv_req=False):
+    def __init__(self, cause, trigger, rounds=1, alts=(), modes=('Q',), lease=False, flavour='tcp', gate=False, channel=False, slow_close=False, srv_req=False, client_lease=False):
         self.name = 'reconnect'
+        self.client_lease = client_lease  # leases in both directions: the client grants one on every connection, the servers' own requests wait for it
+        srv_req = srv_req or client_lease
         self.cause, self.trigger, self.rounds, self.lease = cause, trigger, rounds, lease
         self.flavour = flavour
         self.slow_close = slow_close  # the application's on_close keeps awaiting (clean-up work) after asking for the reconnect
         self.channel = channel  # a channel whose local publisher still has credit is open when the connection ends
         self.srv_req = srv_req  # every server sends the client a fragmented request of its own (stream id 2 on each connection)
         self.gate = gate  # connect() of every later transport suspends until the explorer lets it finish
-        self.params = {'cause': cause, 'trigger': trigger, 'rounds': rounds, 'alts': list(alts), 'modes': list(modes), 'lease': lease, 'flavour': flavour, 'gate': gate, 'channel': channel, 'slow_close': slow_close, 'srv_req': srv_req}
+        self.params = {'cause': cause, 'trigger': trigger, 'rounds': rounds, 'alts': list(alts), 'modes': list(modes), 'lease': lease, 'flavour': flavour, 'gate': gate, 'channel': channel, 'slow_close': slow_close, 'srv_req': srv_req, 'client_lease': client_lease}
         self.world_kw = {'alts': alts, 'modes': modes, 'fault_budget': rounds if cause != 'healthy' else 0, 'horizon': 2.0 * rounds + 1.6, 'step_cap': 900}
 
     def setup(self, w):
@@ -58,6 +60,9 @@ class Reconnect(Scenario):
                 # the first server never grants a lease (requests stay parked in the client); later servers grant 5 requests
                 from rsocket.lease import SingleLeasePublisher, LeasePublisher
                 start_server(w, c, s_beh(i), lease_publisher=LeasePublisher() if i == 0 else SingleLeasePublisher(maximum_request_count=5))
+            elif self.client_lease:
+                from rsocket.lease import SingleLeasePublisher
+                start_server(w, c, s_beh(i), fragment_size_bytes=64, honor_lease=True, lease_publisher=SingleLeasePublisher(maximum_request_count=5))
             elif self.srv_req:
                 start_server(w, c, s_beh(i), fragment_size_bytes=64)
             else:
@@ -101,8 +106,12 @@ class Reconnect(Scenario):
         c_beh = {'on_close': on_close, 'on_keepalive_timeout': on_timeout}
         if self.srv_req:
             c_beh['request_response'] = lambda h, p: create_future(P(b'CR:' + bytes(p.data or b'')))
+        c_kw = {}
+        if self.client_lease:
+            from rsocket.lease import SingleLeasePublisher
+            c_kw['lease_publisher'] = SingleLeasePublisher(maximum_request_count=5)
         client = start_client(w, conns, c_beh,
-                              keep_alive_period=timedelta(seconds=PERIOD), max_lifetime_period=timedelta(seconds=LIFE), honor_lease=self.lease)
+                              keep_alive_period=timedelta(seconds=PERIOD), max_lifetime_period=timedelta(seconds=LIFE), honor_lease=self.lease or self.client_lease, **c_kw)
         w.objs['client'] = client
         w.fault_kinds = (self.cause,) if self.cause != 'healthy' else ()
         w.cut_points = 'boundaries'
@@ -304,6 +313,11 @@ def make_units(tier):
         K = 4
         for k in range(K):
             units.append({'cause': cause, 'trigger': trig, 'rounds': 1, 'bound': 1, 'shard': [k, K], 'alts': [], 'srv_req': True})
+    # leases in both directions: the client grants its lease anew on every connection (the servers' own requests wait for it)
+    for cause, trig in (('eof', 'on_close'), ('healthy', 'free'), ('mute', 'on_timeout'), ('rst', 'free')):
+        K = 4
+        for k in range(K):
+            units.append({'cause': cause, 'trigger': trig, 'rounds': 1, 'bound': 1, 'shard': [k, K], 'alts': [], 'client_lease': True})
     # the QUIC transport (the other one that reports a lost connection); eof and rst are the same event there
     for cause, trig in COMBOS:
         if cause == 'eof':
@@ -324,7 +338,7 @@ def bounds(tier):
 
 
 def scenario_of(unit):
-    return Reconnect(unit['cause'], unit['trigger'], unit['rounds'], alts=tuple(unit['alts']), lease=unit.get('lease', False), flavour=unit.get('flavour', 'tcp'), gate=unit.get('gate', False), channel=unit.get('channel', False), slow_close=unit.get('slow_close', False), srv_req=unit.get('srv_req', False))
+    return Reconnect(unit['cause'], unit['trigger'], unit['rounds'], alts=tuple(unit['alts']), lease=unit.get('lease', False), flavour=unit.get('flavour', 'tcp'), gate=unit.get('gate', False), channel=unit.get('channel', False), slow_close=unit.get('slow_close', False), srv_req=unit.get('srv_req', False), client_lease=unit.get('client_lease', False))
 
 
 def run_unit(unit, part):
@@ -332,7 +346,7 @@ def run_unit(unit, part):
 
 
 def scenario_from(name, params):
-    return Reconnect(params['cause'], params['trigger'], params['rounds'], tuple(params['alts']), tuple(params['modes']), params.get('lease', False), params.get('flavour', 'tcp'), params.get('gate', False), params.get('channel', False), params.get('slow_close', False), params.get('srv_req', False))
+    return Reconnect(params['cause'], params['trigger'], params['rounds'], tuple(params['alts']), tuple(params['modes']), params.get('lease', False), params.get('flavour', 'tcp'), params.get('gate', False), params.get('channel', False), params.get('slow_close', False), params.get('srv_req', False), params.get('client_lease', False))
 
 
 def replay(rec):
